@@ -741,11 +741,13 @@ KF(c, g, o, ln, o2, g2) ==
          THEN "D3" ELSE ""
     [] c = "C05_noblock" ->
          \* D1 as coded: the unguarded reap after a kill sits in _stop() (stop, restart, non-graceful reload, rm,
-         \* quit) and in the sequential reload loop; the surplus / expiry paths of manage_processes are guarded
+         \* quit, an aborted start) and in the sequential reload loop; the surplus / expiry paths of manage_processes
+         \* are guarded
+         \* (_stop() runs under many slots - a start that aborts, a respawn=False watcher that runs out of workers -
+         \*  but always with the watcher in status "stopping")
          IF ln.p \in 1..Len(g.term) /\ g.term[ln.p].open
-            /\ \/ o.slot \in {"watcher_stop", "watcher_restart", "arbiter_stop_watchers", "arbiter_restart",
-                              "arbiter_stop", "arbiter_rm_watcher"}
-               \/ (o.slot \in {"watcher_reload", "arbiter_reload"} /\ (~g.op.graceful \/ g.op.seq))
+            /\ \/ \E i \in WIdx(o) : o.w[i].ln = OwnerOf(g, ln.p) /\ o.w[i].st = "stopping"
+               \/ (o.slot \in {"watcher_reload", "arbiter_reload", "watcher_do_action"} /\ g.op.seq)
          THEN "D1"
          ELSE IF g.op.cmd = "start" /\ g.op.slot \in {"watcher_start", "arbiter_start_watchers"} THEN "D2"
          \* D18: an on_demand watcher that still has a live worker was set to "stopped" when another one died; the next
